@@ -83,6 +83,22 @@ def gen(rng):
         o2 = rng.choice(['ngerman', 'english', 'russian'])
         g.s += '\\documentclass[%s]{article}\n\\usepackage[%s]{babel}\n' % (o1, o2)
         cur = LT[o2]
+    elif kind < 0.65:
+        # several languages: the last one is the main language unless an
+        # option main=<language> names it (babel manual, section 1.8)
+        names = ['german', 'ngerman', 'english', 'russian']
+        opts = [rng.choice(names) for _ in range(rng.randint(1, 3))]
+        mainopt = None
+        if rng.random() < 0.6:
+            mainopt = rng.choice(names)
+            opts.insert(rng.randint(0, len(opts)), rng.choice(['main=%s', 'main=%s', 'main = %s']) % mainopt)
+        if rng.random() < 0.3:
+            opts.insert(rng.randint(0, len(opts)), rng.choice(['shorthands=off', 'provide=*', 'strings=generic']))
+        if rng.random() < 0.3:
+            g.s += '\\documentclass[%s]{article}\n\\usepackage{babel}\n' % ','.join(opts)
+        else:
+            g.s += '\\usepackage[%s]{babel}\n' % ','.join(opts)
+        cur = LT[mainopt] if mainopt else LT[[o for o in opts if '=' not in o][-1]]
     else:
         g.s += '\\usepackage{babel}\n'
     for _ in range(rng.randint(1, 5)):
